@@ -11,6 +11,8 @@ G1 = ('2020-06-01 BUY AAA 10 @ 5\n2020-07-01 SELL AAA 4 @ 8 FEES 1\n2020-07-15 B
 UNCOVERED = '2020-06-01 BUY AAA 10 @ 5\n2020-07-01 SELL AAA 40 @ 8\n'
 NOEXEMPT = '2030-06-01 BUY AAA 10 @ 5\n2030-07-01 SELL AAA 4 @ 8\n'
 OVERFLOW = '2020-06-01 BUY AAA 1 @ 79228162514264337593543950335 FEES 1\n'
+# a ledger with a disposal in a tax year that has no configured exemption: a single-year report of another year is still possible
+G2 = '2024-05-01 BUY VOD 100 @ 1\n2024-09-10 SELL VOD 10 @ 2\n2026-09-10 SELL VOD 5 @ 2\n2012-05-01 BUY OLD 10 @ 1\n2012-06-01 SELL OLD 5 @ 2\n'
 DISPOSALS = [('2020-07-01', 'AAA'), ('2021-09-01', 'AAA'), ('2021-10-05', 'bbb')]
 
 
@@ -23,6 +25,8 @@ def classes(g1_json):
         'calc_all': call('calculate_report', {'transactions': G1}),
         'calc_json': call('calculate_report', {'transactions': g1_json}),
         'calc_year': call('calculate_report', {'transactions': G1, 'year': 2020}),
+        'calc_mixed': call('calculate_report', {'transactions': G2, 'year': 2024}),
+        'explain_mixed': call('explain_matching', {'transactions': G2, 'disposal_date': '2024-09-10', 'ticker': 'VOD'}),
         'parse': call('parse_transactions', {'transactions': G1}),
         'to_dsl': call('convert_to_dsl', {'transactions': g1_json}),
         'fx': call('get_fx_rate', {'currency': 'usd', 'year': 2024, 'month': 1}),
@@ -249,6 +253,8 @@ def mcp_check(tier, seed):
         expect['calc_json'] = expect['calc_all']
         expect['calc_year'] = {'kind': 'result', 'digest': cli_digest(['report', '--format', 'json', '--year', '2020', 'g1.cgt'], core)}
         expect['parse'] = {'kind': 'result', 'digest': cli_digest(['parse', 'g1.cgt'], lambda j: j)}
+        open(os.path.join(root, 'ref', 'g2.cgt'), 'w').write(G2)
+        expect['calc_mixed'] = {'kind': 'result', 'digest': cli_digest(['report', '--format', 'json', '--year', '2024', 'g2.cgt'], core)}
         for n in ('bad_args', 'bad_dsl', 'bad_json', 'bad_json_wide_a', 'bad_json_wide_b', 'bad_json_wide_c', 'uncovered', 'no_exemption', 'big_year', 'explain_missing', 'unknown_tool', 'res_bad'):
             expect[n] = {'kind': 'error', 'digest': ''}
         solo = [n for n in names if n not in expect] + ['initialize']
@@ -262,9 +268,9 @@ def mcp_check(tier, seed):
                 continue
             k, d = digest_of(resp[rid])
             expect[n] = {'kind': k, 'digest': d if n != 'initialize' else 'init'}
-            if n.startswith('explain_') and k != 'result':
+            if n.startswith('explain_') and n != 'explain_missing' and k != 'result':
                 findings.append({'prop': 'C20', 'kind': 'explain_covers', 'case': 0, 'input': json.dumps(cls[n])[:2000], 'data': {},
-                                 'detail': f'calculate_report lists the disposal {DISPOSALS[int(n[8:])]} but explain_matching cannot explain it: {json.dumps(resp[rid])[:300]}'})
+                                 'detail': f'calculate_report lists this disposal but explain_matching cannot explain it: {json.dumps(resp[rid])[:300]}'})
         # explain_matching agrees with calculate_report on every listed disposal
         rc, so, _ = run_cli(os.path.join(root, 'ref'), os.path.join(root, 'ref', 'home'), ['report', '--format', 'json', 'g1.cgt'])
         rep = json.loads(so)
